@@ -354,8 +354,8 @@ class Check:
         return {}
 
 
-def rc_params(seed, max_success, max_size=100):
-    return "seed=%d max_success=%d max_size=%d" % (seed, max_success, max_size)
+def rc_params(seed, max_success, max_size=100, noshrink=False):
+    return "seed=%d max_success=%d max_size=%d%s" % (seed, max_success, max_size, " noshrink=1" if noshrink else "")
 
 
 def run_check(chk, tier, seed, replay=None):
@@ -428,7 +428,7 @@ def run_check(chk, tier, seed, replay=None):
     broken_msgs = []
     for idx, r in enumerate(results):
         b, a, e, rcp = jobs[idx]
-        if r.timed_out:
+        if r.timed_out and not r.fail_sig:
             note("worker %d hit the wall-clock cap (explored what it could; inconclusive beyond that)" % idx)
             continue
         if r.rc == 0:
